@@ -72,7 +72,45 @@ void set_clear(struct set *set, int no_dispose)
 }
 int set_compare_charp(const void *a_, const void *b_) { char *const *a = a_, *const *b = b_; return strcasecmp(*a, *b); }
 
+#ifdef LIST_2
+#define NLIST 3
+#else
 #define NLIST 2
+#endif
+#ifndef LOADABLE
+#define LOADABLE 15
+#endif
+
+/* ---- allocation: xmalloc / xrealloc by contract ("zeroed block of at least `size` bytes" / "old
+ * contents kept up to the smaller size"), returning TYPED objects.  calloc(1, a + b) is a byte
+ * array for the verifier: pointers stored in a module record would come back byte by byte and no
+ * later comparison would be concrete (this is what kept the earlier C20 harnesses from finishing).
+ * Module records and name vectors are typed; anything else is a plain zeroed block. */
+struct mnode { struct set_node n; struct module m; char name[3]; };
+void *model_xmalloc(unsigned int size)
+{
+    static const struct mnode zero;
+    struct mnode *p;
+    if (size != sizeof(struct set_node) + sizeof(struct module) + 3)
+        return calloc(1, size);                   /* the exit-handler table of reg_exit_func(): never read here */
+    p = malloc(sizeof(*p)); __CPROVER_assume(p != NULL);
+    *p = zero;
+    return p;
+}
+void *model_xrealloc(void *ptr, unsigned int size)
+{
+    const char **old = ptr, **p = NULL;
+    unsigned oldn = ptr ? (unsigned)(__CPROVER_OBJECT_SIZE(ptr) / sizeof(char *)) : 0, n = 0, i;
+    switch (size) {
+    case 4 * sizeof(char *): p = malloc(sizeof(const char *[4])); n = 4; break;
+    case 8 * sizeof(char *): p = malloc(sizeof(const char *[8])); n = 8; break;
+    default: V_ASSERT(0, "harness: dependency vectors hold 4 or 8 names"); break;
+    }
+    __CPROVER_assume(p != NULL);
+    for (i = 0; i < 8; i++) if (i < n && i < oldn) p[i] = old[i];
+    if (ptr) free(ptr);
+    return p;
+}
 
 /* ------------------------------------------------------------------ symbolic inputs */
 struct { unsigned char d[MODS][MODS]; } in_dep;      /* d[i][j] != 0: mi depends on mj */
@@ -97,6 +135,13 @@ _Bool nondet_bool(void);
 static void closure(void)
 {
     unsigned i, j, k;
+#ifdef MATRIX
+    /* concrete matrix (one job per graph): plain evaluation, everything constant-folds */
+    for (i = 0; i < MODS; i++) for (j = 0; j < MODS; j++) reach[i][j] = in_dep.d[i][j] != 0;
+    for (k = 0; k < MODS; k++) for (i = 0; i < MODS; i++) for (j = 0; j < MODS; j++)
+        if (reach[i][k] && reach[k][j]) reach[i][j] = 1;
+    return;
+#endif
     for (i = 0; i < MODS; i++) for (j = 0; j < MODS; j++) { _Bool b = nondet_bool(); __CPROVER_assume(b == (in_dep.d[i][j] != 0)); reach[i][j] = b; }
     for (k = 0; k < MODS; k++) {
         int nxt[MODS][MODS];
@@ -119,6 +164,11 @@ static int has_unloadable(void) { return f_unloadable; }
 static void summarise(void)
 {
     unsigned i;
+#ifdef MATRIX
+    f_cycle = has_cycle_x() != 0; f_unloadable = has_unloadable_x() != 0;
+    for (i = 0; i < MODS; i++) { f_oncycle[i] = reach[i][i] != 0; f_needed[i] = needed[i] != 0; }
+    return;
+#endif
     f_cycle = nondet_bool(); __CPROVER_assume(f_cycle == (has_cycle_x() != 0));
     f_unloadable = nondet_bool(); __CPROVER_assume(f_unloadable == (has_unloadable_x() != 0));
     for (i = 0; i < MODS; i++) {
@@ -204,6 +254,7 @@ void log_message(struct log_type *type, enum log_severity sev, const char *forma
         V_ASSERT(has_cycle() || has_unloadable(), "C20: an acyclic graph of loadable modules must not abort start-up (e.g. a module reachable along two paths is not a loop)");
         for (i = 0; i < MODS; i++)
             if (f_oncycle[i]) V_ASSERT(post_n[i] == 0, "C20: start-up aborts before any member of a dependency cycle is post-initialised");
+        V_CANARY();
         __CPROVER_assume(0);
     }
 }
@@ -219,16 +270,28 @@ void h_module_graph(void)
     /* the listing is fixed per job (-DLIST_N -DLIST_0 -DLIST_1): module names stay string literals for
      * the symbolic executor, so strlen(name) and the size of the module record are concrete */
     in_list.n = LIST_N; in_list.m[0] = LIST_0; in_list.m[1] = LIST_1;
+#ifdef LIST_2
+    in_list.m[2] = LIST_2;
+#endif
+#endif
+#ifdef MATRIX
+    /* one job per dependency graph: bit i*MODS+j of MATRIX says "mi depends on mj"; LOADABLE bit i
+     * says dlopen succeeds for mi */
+    for (i = 0; i < MODS; i++) for (j = 0; j < MODS; j++) in_dep.d[i][j] = ((MATRIX) >> (i * MODS + j)) & 1;
+    for (i = 0; i < MODS; i++) in_loadable.ok[i] = ((LOADABLE) >> i) & 1;
 #endif
     V_ASSUME(in_list.n >= 1 && in_list.n <= NLIST);
-    for (i = 0; i < MODS; i++) in_dep.d[i][i] = in_dep.d[i][i];   /* self-dependency allowed: it is a cycle */
     for (i = 0; i < NLIST; i++) { V_ASSUME(in_list.m[i] < MODS); names[i] = (char *)mname(in_list.m[i]); }
     /* closure and the set of modules the configuration needs */
     closure();
     for (i = 0; i < MODS; i++) {
-        _Bool b = nondet_bool(); int nd = 0;
+        int nd = 0;
         for (k = 0; k < NLIST; k++) if (k < in_list.n && (in_list.m[k] == i || reach[in_list.m[k]][i])) nd = 1;
-        __CPROVER_assume(b == (nd != 0)); needed[i] = b;
+#ifdef MATRIX
+        needed[i] = nd;
+#else
+        { _Bool b = nondet_bool(); __CPROVER_assume(b == (nd != 0)); needed[i] = b; }
+#endif
     }
 
     summarise();
